@@ -13,6 +13,9 @@
                        (extra = captured-slot operands of ldu / setu in sub-funcdefs that read_instruction counts in this funcdef)
                        -> "<janet_verify code of that funcdef> <slot count janet_asm1 computes from its disassembly> <ok <slotcount>|err>"
                           (Asm/Def.lean: verify, asmSlotcount, asmOf)
+    absdepth <a> <i> <k> -> "<ok|err> <ok|err>": does marshalD accept `a` arrays around a chain of `k` abstracts (each holding the next
+                       inside `i` arrays) at the top-level depth budget, and does unmarshalD accept the bytes of that value; increments
+                       of the two sides regenerated from marsh.c (Marsh/AbsDepth.lean)
     chanhook <threaded> <closed> <limit> <val>*   -> hex of what janet_chanat_marshal appends (hook protocol, Abstract.lean)
     chanread <hex>     -> "ok <consumed> <threaded> <closed> <limit> <val>*" | "err"   (janet_chanat_unmarshal on those bytes)
   <cdesc> = <val> { "|" <cobj> } "#" [ <def> { "|" <def> } ] "#" [ <env> { "|" <env> } ]
@@ -38,6 +41,7 @@ import JanetModel.Asm.Operand
 import JanetModel.Asm.Instr
 import JanetModel.Asm.Def
 import JanetModel.Marsh.Present
+import JanetModel.Marsh.AbsDepth
 open Driver JanetModel.Marsh
 
 def dropFirst (s : String) (k : Nat) : String := String.ofList (s.toList.drop k)
@@ -468,8 +472,19 @@ def stepAsmDef : List String → Option String
     some s!"{JanetModel.Asm.verify d} {JanetModel.Asm.asmSlotcountX extra d} {r}"
   | _ => none
 
+def stepAbsDepth (ws : List String) : Option String := do
+  let [a, i, k] := ws | none
+  let a ← a.toNat?
+  let i ← i.toNat?
+  let k ← k.toNat?
+  let v := AbsDepth.wrap a (AbsDepth.chainW i k)
+  let m := (AbsDepth.marshalD AbsDepth.mIncs AbsDepth.topFuel v).isSome
+  let u := (AbsDepth.unmarshalD AbsDepth.uIncs AbsDepth.topFuel (AbsDepth.enc v)).isSome
+  some s!"{if m then "ok" else "err"} {if u then "ok" else "err"}"
+
 def step2 (u : Unit) (ws : List String) : Unit × String :=
   match ws with
+  | "absdepth" :: rest => ((), (stepAbsDepth rest).getD "bad-op")
   | "asmdef" :: rest => ((), (stepAsmDef rest).getD "bad-op")
   | "present" :: d =>
     match parseDesc d with
